@@ -83,6 +83,13 @@ type chainRun struct {
 
 type panicToken struct{ id int }
 
+// swallowWriter: a response writer of the application that swallows everything it is given
+type swallowWriter struct{ hdr http.Header }
+
+func (w *swallowWriter) Header() http.Header         { return w.hdr }
+func (w *swallowWriter) WriteHeader(int)             {}
+func (w *swallowWriter) Write(b []byte) (int, error) { return len(b), nil }
+
 var writeAPI int
 
 func opName(op []any) string { return op[0].(string) }
@@ -405,6 +412,7 @@ func chainRunOnce(s *Summary, c *chainCase, sp chainSplit, outerPrefix string, c
 	}
 	var r *rux.Router
 	decoyMw := func(cx *rux.Context) { cur.log = append(cur.log, []any{"in", -1, cx.IsAborted()}) } // must never run for /x
+	polluted := c.Kind == "route" && n%2 == 0 && chainRunHook == nil
 	method, path := "GET", "/g/h/x"
 	regPanic := any(nil)
 	func() {
@@ -535,6 +543,15 @@ func chainRunOnce(s *Summary, c *chainCase, sp chainSplit, outerPrefix string, c
 			r.Use(hs[k/2 : k]...)
 			r.POST("/g/h/x", nopHandler)
 		}
+		if polluted {
+			r.GET("/pollute", func(cx *rux.Context) {
+				cx.Resp = &swallowWriter{hdr: http.Header{}} // a wrapper installed by a handler and never taken out again
+				cx.Set("polluted", 1)
+				cx.AddError(errors.New("polluter"))
+				cx.Params = rux.Params{"polluted": "1"}
+				cx.Abort()
+			})
+		}
 		if c.OnError != nil {
 			r.OnError = mkHandler(&cur, 0, c.OnError)
 		}
@@ -566,6 +583,14 @@ func chainRunOnce(s *Summary, c *chainCase, sp chainSplit, outerPrefix string, c
 	}
 	if cachedDyn {
 		serve() // the miss fills the cache; what is observed below is the cache hit
+	}
+	if polluted {
+		// an earlier request whose handler leaves its context in the worst possible state: the request observed below
+		// (most likely on the same pooled context) must not notice
+		savedPath, savedMethod := path, method
+		path, method = "/pollute", "GET"
+		serve()
+		path, method = savedPath, savedMethod
 	}
 	run := serve()
 	s.Compared++
